@@ -16,7 +16,8 @@ if os.path.realpath(repo) != "/repo":
     shutil.rmtree(src2, ignore_errors=True)
     shutil.copytree(src, src2)
     p = os.path.join(src2, "Cargo.toml")
-    open(p, "w").write(open(p).read().replace('path = "/repo/varlink"', 'path = "%s/varlink"' % repo))
+    txt = open(p).read().replace('path = "/repo/varlink"', 'path = "%s/varlink"' % repo)
+    open(p, "w").write(txt)
     src = src2
 env = dict(os.environ, CARGO_NET_OFFLINE="true", CARGO_TARGET_DIR=os.path.join(build, "replay-target"))
 pat = sys.argv[1] if len(sys.argv) > 1 else "*"
